@@ -943,6 +943,53 @@ def run_probes(ctx, stats):
     return len(PROBES)
 
 
+def limit_program(na, nb):
+    """one function (inner) capturing na variables of its grandparent and nb of its parent (na + nb upvalues, all distinct),
+    reading all, writing the last; then another closure reads the FIRST again, the parent reads the last, the grandparent the first"""
+    L = ["fn outer() {"]
+    L += [" var a%d = %d;" % (i, i) for i in range(na)]
+    L.append(" fn mid() {")
+    L += ["  var b%d = %d;" % (i, 1000 + i) for i in range(nb)]
+    L.append("  fn inner() { var s = 0;")
+    L += ["   s = s + a%d;" % i for i in range(na)]
+    L += ["   s = s + b%d;" % i for i in range(nb)]
+    L.append("   b%d = -1; return s; }" % (nb - 1))
+    L.append("  print(inner()); var g = || a0; print(g()); print(b%d); }" % (nb - 1))
+    L.append(" mid(); print(a0); }")
+    L.append("outer();")
+    expect = [str(sum(range(na)) + sum(1000 + i for i in range(nb))), "0", "-1", "0"]
+    return "\n".join(L), expect
+
+
+def run_limits(ctx, stats):
+    """directed family at UPVALUES_MAX: functions capturing exactly 255, 256, 257 (and 258) distinct variables over two enclosing
+    levels.  Spec: either the program is rejected at compile time, or every variable keeps its own value (a captured variable never
+    aliases another one)."""
+    fast = ctx.harness("release")
+    cases = []
+    for n in (255, 256, 257, 258):
+        for na in (200, 128, n - 200):
+            cases.append((n, na, n - na))
+    progs = [limit_program(na, nb) for _, na, nb in cases]
+    recs = yvlib.run_harness(fast, ["run - " + hx(src) for src, _ in progs], case_timeout_ms=20000)
+    outcome = {}
+    for (n, na, nb), (src, expect), r in zip(cases, progs, recs):
+        got = norm_out(r.output)
+        if r.result[0] == "err" and "Compile" in str(r.result[1]) and not got:
+            outcome["%d=%d+%d" % (n, na, nb)] = "rejected at compile time"
+            continue
+        if r.result[0] == "ok" and got == expect:
+            outcome["%d=%d+%d" % (n, na, nb)] = "accepted, every variable keeps its own value"
+            continue
+        ctx.violation("a function capturing %d distinct variables (%d of its grandparent, %d of its parent): neither rejected at compile "
+                      "time nor does every variable keep its own value" % (n, na, nb),
+                      input=src if len(src) < 4000 else src[:1500] + "\n ... \n" + src[-1500:], expected=expect,
+                      actual=got + ([str(r.result)] if r.result[0] != "ok" else []))
+        outcome["%d=%d+%d" % (n, na, nb)] = "VIOLATION"
+    stats["limit_family"] = outcome
+    return len(cases)
+
+
 def known_class_of(c, p):
     """which repair makes the model meet the Spec (ablation) - together with the syntactic class predicate"""
     if c["model"] == c["spec"] or "model_break_fixed" not in c:
@@ -1186,7 +1233,10 @@ def run(ctx):
     if ctx.replay_only:
         p = ctx.replay_only.get("prog")
         if p is None:
-            ctx.notes.append("replay file carries no program")
+            # a violation of a directed family (fixed source texts): re-run those families
+            n = run_probes(ctx, stats) + run_limits(ctx, stats)
+            ctx.cov.update({"evaluations": n, "rule": "replay of the directed families (probes, upvalue-limit family)",
+                            "upvalue_limit_family": stats.get("limit_family", {})})
             return
         p = json.loads(json.dumps(p), object_hook=None)
         p = detuple(p)
@@ -1242,6 +1292,7 @@ def run(ctx):
             nmeta_ok += 1
     refspec_compare(ctx, [d for d in res if d is not None and "#stuck" not in d["spec"]][:(60 if quick else 500)], stats, "gen")
     nprobes = run_probes(ctx, stats)
+    nlimits = run_limits(ctx, stats)
     t0 = time.time()
     nscripts = script_traces(ctx, stats)
     log("[C06] repository scripts traced in %.1fs" % (time.time() - t0))
@@ -1268,7 +1319,8 @@ def run(ctx):
     ctx.violations[:] = kkeep + other[:5]
     ctx.corr_broken[:] = ctx.corr_broken[:8]
     ctx.cov.update({
-        "evaluations": stats["evaluated"] + nscripts + nprobes,
+        "evaluations": stats["evaluated"] + nscripts + nprobes + nlimits,
+        "upvalue_limit_family": stats.get("limit_family", {}),
         "probes_outside_the_mini_language": [n for n, _, _, _ in PROBES],
         "distinct_nontrivial": len(stats["nontrivial"]),
         "rule": "generated programs of the mini-language (templates: %s; each placed bare / in a block / in a function called once / in a loop / "
@@ -1301,8 +1353,13 @@ def detuple(x):
 def search(ctx):
     """obligations / correspondences broken: look for a failing input with the thorough generators (Spec oracle)"""
     old = ctx.tier
+    old_scale = os.environ.get("C06_SCALE")
     ctx.tier = os.environ.get("C06_SEARCH_TIER", "thorough")     # developer knob (mutation runs)
+    if old_scale is None:
+        os.environ["C06_SCALE"] = "0.5"      # bounds the search to about four minutes (the directed families are not scaled)
     try:
         run(ctx)
     finally:
         ctx.tier = old
+        if old_scale is None:
+            os.environ.pop("C06_SCALE", None)
